@@ -509,13 +509,15 @@ fn one_record(rec: &Value, props: &BTreeSet<String>, long: &mut MoveGenerator, a
 
     // ---- attack maps (C11 on real positions): compare on squares not occupied by the attacker
     if has("C11") && rec.get("aw").is_some() {
-        for (white, field) in [(true, "aw"), (false, "ab")] {
+        // ONE generator answers for both colours on the same board (in either order): the answers must not mix
+        let mut both = MoveGenerator::with_cache_capacity(FRESH_CAP);
+        let order = if idx % 2 == 0 { [(true, "aw"), (false, "ab")] } else { [(false, "ab"), (true, "aw")] };
+        for (white, field) in order {
             let want: BTreeSet<u32> = rec[field].as_array().unwrap().iter().map(|x| x.as_u64().unwrap() as u32).collect();
             let c = if white { Color::White } else { Color::Black };
             let r = guarded(|| {
                 let board = pos.setup();
-                let mut gen = MoveGenerator::with_cache_capacity(FRESH_CAP);
-                squares_of(gen.get_attack_targets(&board, c))
+                squares_of(both.get_attack_targets(&board, c))
             });
             acc.eval("C11", 1);
             match r {
